@@ -37,7 +37,7 @@ func init() {
 					cells = append(cells, "pair/"+pos+"/"+rel)
 				}
 			}
-			return append(cells, "purity/chain-verdicts/history", "purity/chain-verdicts/concurrent", "purity/chain-verdicts/concurrent-focused", "chain-purity/ExecutionAllowed/same-proofs-command-parent/model=deny", "chain-purity/ExecutionAllowed/same-proofs-command-sibling/model=deny", "chain-purity/ExecutionAllowed/same-proofs-command-child/model=allow", "allowed", "denied", "wire", "hook", "long-chain", "scale", "shared-lower-links")
+			return append(cells, "purity/chain-verdicts/history", "purity/chain-verdicts/concurrent", "purity/chain-verdicts/concurrent-focused", "chain-purity/ExecutionAllowed/same-proofs-command-parent/model=deny", "chain-purity/ExecutionAllowed/same-proofs-command-sibling/model=deny", "chain-purity/ExecutionAllowed/same-proofs-command-child/model=allow", "allowed", "denied", "wire", "hook", "long-chain", "scale", "shared-lower-links", "special-segments")
 		},
 	})
 }
@@ -152,6 +152,33 @@ func runC02(w *mon.W) {
 				return
 			}
 			for _, c := range c02Universe {
+				cmds[k] = c
+				rec(k + 1)
+			}
+		}
+		rec(0)
+	}
+	// a second small lattice, exhaustive for n <= 2: segments that mean something special elsewhere
+	// (wildcards of earlier UCAN versions and of shells, relative path segments, an encoded
+	// slash) are ordinary segments here; two thirds of these chains go through the decoders
+	special := []string{"/", "/a", "/a/b", "/a/*", "/*", "/a/**", "/a/.", "/a/..", "/a/%2f", "/a/b/*"}
+	for n := 1; n <= 2; n++ {
+		cmds := make([]string, n+1)
+		var rec func(k int)
+		rec = func(k int) {
+			if k == n+1 {
+				idx++
+				if w.Mine(idx) {
+					wire := 0
+					if idx%3 != 0 {
+						wire = 1 + (idx/3)%4
+					}
+					w.Cover("special-segments")
+					c02Run(w, append([]string{}, cmds...), wire)
+				}
+				return
+			}
+			for _, c := range special {
 				cmds[k] = c
 				rec(k + 1)
 			}
